@@ -10,5 +10,6 @@ verus! {
 //@include baseunit.rs
 //@part btree_merge
 //@part dims
+//@autoslots
 } // verus!
 fn main() {}
